@@ -70,12 +70,12 @@ theorem erase_of_lookup_none {m : Idx} {k : Hash} (h : lookup m k = none) : eras
 /-! ### invariants -/
 
 /-- index entries are in range (so `pool.txs[index] = nil` cannot panic) and an entry pointing at a
-    live slot is one of that transaction's hashes. Holds for the code as it is. -/
+    live slot is one of that transaction's hashes. Holds both before and after the repair (commit 85d2f65). -/
 structure WInv (p : Pool) : Prop where
   idx_lt : ∀ k i, lookup p.idx k = some i → i < p.txs.length
   idx_slot : ∀ k i t, lookup p.idx k = some i → p.txs[i]? = some (some t) → k ∈ t.keys
 
-/-- every live slot is indexed under all its hashes. This is what `delTx(box)` breaks. -/
+/-- every live slot is indexed under all its hashes. This is what `delTx(box)` broke before commit 85d2f65. -/
 structure Inv (p : Pool) : Prop extends WInv p where
   slot_idx : ∀ i t, p.txs[i]? = some (some t) → ∀ k ∈ t.keys, lookup p.idx k = some i
 
@@ -901,7 +901,7 @@ theorem mem_live {p : Pool} {t : Tx} : t ∈ live p ↔ ∃ i : Nat, p.txs[i]? =
   · rintro ⟨i, h⟩
     exact ⟨some t, List.mem_of_getElem? h, rfl⟩
 
-/-! ### the guard under which the code as it is coincides with the repaired code -/
+/-! ### the guard under which the code before commit 85d2f65 (`fixed = false`) coincides with the repaired code -/
 
 /-- when `delTx` reaches sub-tx `s` of a deleted box, its hash is not indexed, or only at a slot that is
     already cleared (the box's own slot) -/
@@ -921,7 +921,7 @@ def OpGuard (p : Pool) : Op → Prop
   | .del ds => DelsGuard p ds
   | _ => True
 
-/-- the guard holds at every `DelTxs` call of the sequence (evaluated along the run of the code as it is) -/
+/-- the guard holds at every `DelTxs` call of the sequence (evaluated along the run of the code before commit 85d2f65, `fixed = false`) -/
 def Guarded : Pool → List Op → Prop
   | _, [] => True
   | p, op :: r => OpGuard p op ∧ Guarded (step false p op).1 r
